@@ -444,12 +444,15 @@ def run(ctx):
 
     # model agreement (same relation as C17) ------------------------------------------------------
     terms = []
+    skipped_model = 0
     for c in cases:
         row = rows.get(c["id"], {})
         if "obs1" in row:
             t, _ = c17.coq_term(c, row)
-            if t is not None:
+            if t is not None and len(t) <= 90000:
                 terms.append((c["id"], t))
+            elif t is not None:
+                skipped_model += 1      # very large logs (> 200 atoms) make the case file compile for minutes
     failing, errors = C.coq_case_files("c18_family", c17.PREAMBLE, terms, per_file=30) if terms else ([], [])
     if errors:
         raise RuntimeError("case files did not compile: " + json.dumps(errors)[:3000])
@@ -457,6 +460,7 @@ def run(ctx):
 
     dist = {"members": len(mem), "outside_precondition": [{"label": m["label"], "why": why} for m, why in outside][:40],
             "n_outside": len(outside), "runs": len(cases), "class": {}, "kind": {}, "n_adsorbates": {}, "n_atoms": {}, "ext_module": ext,
+            "model_agreement_checked": len(terms), "model_agreement_skipped_large": skipped_model,
             "finder_calls": 0, "conclusion_ok": 0, "contract_ok": 0, "invariance_ok": 0, "timeouts": 0}
     bad_conclusion, bad_contract, bad_invariance, bad_model, bad_runner = [], [], [], [], []
     per_member = {}
